@@ -7,7 +7,7 @@ compared structurally. Spec oracle on the implementation: equal truth tables (ev
 """
 import random
 
-from core import imp, run_model, enc_expr, build_expr, outcome_of
+from core import imp, run_model, enc_expr, build_expr, outcome_of, REPRESENTATIONS
 import algebra
 import gen
 
@@ -47,6 +47,13 @@ def check_one(tree, le):
         return 'truth table changed', st
     if not set(algebra.atoms_of(st)) <= set(algebra.atoms_of(tree)):
         return 'simplify() mentions a license absent from the input', st
+    # the same tree over wrapped user objects, or over a mixture of both kinds of symbol, simplifies to the same expression
+    for like in REPRESENTATIONS:
+        sv = enc_expr(build_expr(tree, like=like).simplify())
+        if sv != st:
+            if algebra.same_truth(tree, sv) is False:
+                return 'truth table changed when licenses are wrapped user objects', st
+            return 'simplify() depends on how the licenses are represented (plain symbol / wrapped user object)', st
     return None, st
 
 
